@@ -130,6 +130,12 @@ def create_dummy_in_mem_geff(
         InMemoryGeff containing all graph properties
     """
     # Generate nodes with flexible count
+    id_dtype = np.dtype(node_id_dtype)
+    if np.issubdtype(id_dtype, np.integer) and num_nodes > int(np.iinfo(id_dtype).max) + 1:
+        raise ValueError(
+            f"num_nodes {num_nodes} does not fit node_id_dtype {node_id_dtype}: "
+            "node ids would wrap around and repeat"
+        )
     nodes = np.arange(num_nodes, dtype=node_id_dtype)
     node_props: dict[str, PropDictNpArray] = {}
     node_prop_meta: list[PropMetadata] = []
